@@ -107,5 +107,7 @@ def resolve(qualname: str):
             obj = inspect.getattr_static(obj, p) if inspect.isclass(obj) else getattr(obj, p)
         if isinstance(obj, (classmethod, staticmethod)):
             obj = obj.__func__
+        if hasattr(obj, "base_func"):      # lark's @v_args wrapper
+            obj = obj.base_func
         return obj
     raise LookupError(qualname)
